@@ -7,6 +7,7 @@ implementation refines, the ping FIFO of `Pingack` included.
 -/
 import Mqtt.Iface.Client
 import Mqtt.Model.Topics
+import Mqtt.Model.Broker
 import Mqtt.Generated.Facts
 
 namespace Mqtt.Model.Client
@@ -140,9 +141,13 @@ def peer (c : C) (p : Packet) : C × List Out :=
     ({ c with pings := rest }, rel.flatMap (fun e => completeOut e.2 false))
   | _ => (c, [])
 
-/-- identifier assignment of `Encode` for a request without one -/
+/-- identifier assignment of `Encode` for a request without one: `message.nextPacketID()`
+(`Model.Broker.nextPacketID`, the same process-wide counter) - identifier 0 is skipped, the
+counter then advances by 2 -/
 def assignId (c : C) (id : Nat) : C × Nat :=
-  if id == 0 then ({ c with ctr := c.ctr + 1 }, (c.ctr + 1) % 65536) else (c, id)
+  if id == 0 then
+    ({ c with ctr := (Mqtt.Model.Broker.nextPacketID c.ctr).2 }, (Mqtt.Model.Broker.nextPacketID c.ctr).1)
+  else (c, id)
 
 /-- the part of an API call before the ack-queue registration: the request is written -/
 def apiWrite (c : C) : Api → C × List Out × Api
